@@ -284,7 +284,7 @@ pub fn run(mut chk: Check) -> ! {
         .into();
     chk.assumptions = vec!["block boundaries come from the harness's independent container reader on the pristine file".into()];
     chk.replay_files(dispatch);
-    let n = chk.scale(400, 20_000);
+    let n = chk.scale(4000, 40_000);
     chk.campaign(CampaignCfg::new("file", n).len(0, 3000), case_file);
     chk.require_label("file:two_byte_count", "file:file", 10.0);
     chk.finish()
